@@ -78,7 +78,7 @@ def gen_cases(ctx, n):
 def run(ctx):
     fw.static_proofs(ctx, ['Properties/C07.v', 'Properties/C01_native.v'])
     so = fw.build_fjcore(ctx)
-    groups = gen_cases(ctx, ctx.n(700, 20000))
+    groups = gen_cases(ctx, ctx.n(700, 8000))
     cases = [c for g in groups for c in g]
     results = ec.run_engines(ctx, cases, so)
     for c, r in zip(cases, results):
